@@ -101,7 +101,9 @@ def _starts_with(m, args, raw):
 @model("str::is_empty", "String::is_empty")
 def _str_is_empty(m, args, raw):
     s = deref(args[0])
-    if s.sym is None:
+    if hasattr(s, "chars"):                 # a string carried as a list of (possibly symbolic) bytes: its length is concrete
+        return len(s.chars) == 0
+    if getattr(s, "sym", None) is None:
         return s.text == ""
     hits = [i for i, w in enumerate(s.vocab) if w == ""]
     return z3.Or([s.sym == i for i in hits]) if hits else False
@@ -562,7 +564,17 @@ def _iter_position(m, args, raw):
 
 
 def normalize_tail(raw):
-    return re.sub(r"::<.*$", "", raw).rsplit("::", 1)[-1]
+    """the method name of a callee path: generic arguments (balanced <...>, the '>' of '->' not counted) removed, last segment"""
+    out, depth, prev = [], 0, ""
+    for ch in raw:
+        if ch == "<":
+            depth += 1
+        elif ch == ">" and prev != "-":
+            depth -= 1
+        elif depth == 0:
+            out.append(ch)
+        prev = ch
+    return "".join(out).rstrip(":").rsplit("::", 1)[-1]
 
 
 @model("bool::then")
@@ -575,3 +587,53 @@ def _bool_then(m, args, raw):
     if fn is None:
         raise Unsupported("closure of " + raw[:60])
     return Some(m.run(fn, [args[1]]))
+
+
+@model("Result::ok", "Result::err")
+def _result_ok(m, args, raw):
+    v = args[0]
+    want = "Ok" if normalize_tail(raw) == "ok" else "Err"
+    return Some(v.fields[0]) if v.variant == want else NONE()
+
+
+@model("Option::or_else")
+def _opt_or_else(m, args, raw):
+    v = args[0]
+    if v.variant == "Some":
+        return v
+    mc = re.search(r"\{closure@[^}]*\}", raw)
+    fn = m.index.get(mc.group(0)) if mc else None
+    if fn is None:
+        raise Unsupported("closure of " + raw[:60])
+    return m.run(fn, [args[1]])
+
+
+@model("^.*::unsigned_abs$", "^.*::abs$")
+def _abs(m, args, raw):
+    v = args[0]
+    if isinstance(v, int):
+        return abs(v)
+    return z3.If(interp_z(v) >= 0, interp_z(v), -interp_z(v))
+
+
+def interp_z(v):
+    import interp
+    return interp._z(v)
+
+
+_INT_RANGE = {"u8": (0, 2 ** 8), "u16": (0, 2 ** 16), "u32": (0, 2 ** 32), "u64": (0, 2 ** 64), "usize": (0, 2 ** 64), "u128": (0, 2 ** 128),
+              "i8": (-2 ** 7, 2 ** 7), "i16": (-2 ** 15, 2 ** 15), "i32": (-2 ** 31, 2 ** 31), "i64": (-2 ** 63, 2 ** 63), "isize": (-2 ** 63, 2 ** 63), "i128": (-2 ** 127, 2 ** 127)}
+
+
+@model("^<(u8|u16|u32|u64|usize|u128|i8|i16|i32|i64|isize|i128) as TryFrom(<.*>)?>::try_from$", "^<(u8|u16|u32|u64|usize|u128|i8|i16|i32|i64|isize|i128) as TryInto(<.*>)?>::try_into$")
+def _int_try_from(m, args, raw):
+    """integer conversions that check the range (concrete values only)"""
+    v = args[0]
+    if not isinstance(v, int) or isinstance(v, bool):
+        raise Unsupported("try_from on a symbolic integer")
+    if "TryFrom" in raw:
+        ty = re.match(r"^<(\w+) as", raw).group(1)
+    else:
+        ty = re.search(r"TryInto<(\w+)>", raw).group(1)
+    lo, hi = _INT_RANGE[ty]
+    return Ok(v) if lo <= v < hi else Err(Opaque("TryFromIntError"))
